@@ -161,8 +161,26 @@ func c08IdPRun(c *core.Ctx, layout []c08KD, runLen int) {
 	d := saml.SPSSODescriptor{AssertionConsumerServices: []saml.IndexedEndpoint{{Binding: saml.HTTPPostBinding, Location: so.SPACS, Index: 1}}}
 	var names []string
 	for _, kd := range layout {
-		d.KeyDescriptors = append(d.KeyDescriptors, saml.KeyDescriptor{Use: kd.use, KeyInfo: saml.KeyInfo{X509Data: saml.X509Data{X509Certificates: c08CertData(kd.cert)}}})
-		names = append(names, fmt.Sprintf("%s:%s", map[string]string{"encryption": "enc", "": "omitted", "signing": "sig"}[kd.use], kd.cert))
+		// the algorithms the SP lists for the key are its preferences; whatever they say, a published encryption key means "encrypt"
+		emKind := []string{"", "", "supported", "unsupported-only", "content-only", "mixed"}[c.Rng.Intn(6)]
+		var ems []saml.EncryptionMethod
+		switch emKind {
+		case "supported":
+			ems = []saml.EncryptionMethod{{Algorithm: "http://www.w3.org/2001/04/xmlenc#aes128-cbc"}, {Algorithm: "http://www.w3.org/2001/04/xmlenc#rsa-oaep-mgf1p"}}
+		case "unsupported-only":
+			ems = []saml.EncryptionMethod{{Algorithm: "http://www.w3.org/2009/xmlenc11#aes256-gcm"}, {Algorithm: "http://www.w3.org/2009/xmlenc11#rsa-oaep"}}
+		case "content-only":
+			ems = []saml.EncryptionMethod{{Algorithm: "http://www.w3.org/2001/04/xmlenc#aes256-cbc"}}
+		case "mixed":
+			ems = []saml.EncryptionMethod{{Algorithm: "http://www.w3.org/2009/xmlenc11#aes128-gcm"}, {Algorithm: "http://www.w3.org/2001/04/xmlenc#aes128-cbc"}, {Algorithm: "http://www.w3.org/2001/04/xmlenc#rsa-1_5"}}
+		}
+		c.Observe("key_descriptor_encryption_method_lists", "methods="+emKind)
+		d.KeyDescriptors = append(d.KeyDescriptors, saml.KeyDescriptor{Use: kd.use, EncryptionMethods: ems, KeyInfo: saml.KeyInfo{X509Data: saml.X509Data{X509Certificates: c08CertData(kd.cert)}}})
+		n := fmt.Sprintf("%s:%s", map[string]string{"encryption": "enc", "": "omitted", "signing": "sig"}[kd.use], kd.cert)
+		if emKind != "" {
+			n += "(methods:" + emKind + ")"
+		}
+		names = append(names, n)
 	}
 	md.SPSSODescriptors = []saml.SPSSODescriptor{d}
 	mb, _ := xml.Marshal(md)
